@@ -32,6 +32,9 @@ pub struct ParserRun {
     pub budget_exhausted: bool,
     pub stream_alloc: AllocStats,
     pub reassembled: Reassembled,
+    /// largest `size_hint().0 - items still to come` seen before any poll (0 if the hint never over-promised)
+    pub hint_overpromise: usize,
+    pub hint_max_lower: usize,
 }
 
 pub fn run_parsers(x: &[u8], extra_polls: usize) -> ParserRun {
@@ -54,6 +57,7 @@ pub fn run_parsers(x: &[u8], extra_polls: usize) -> ParserRun {
     let mut stream_err = None;
     let mut budget_exhausted = false;
     let mut stream_alloc = AllocStats::default();
+    let mut hints: Vec<usize> = Vec::with_capacity(64);
     let budget = x.len() + 2;
     let sp = catch(|| {
         let armed = alloc::arm(0);
@@ -62,6 +66,8 @@ pub fn run_parsers(x: &[u8], extra_polls: usize) -> ParserRun {
         let mut extra = 0usize;
         let mut n = 0usize;
         loop {
+            let lower = armed.call(|| p.size_hint().0);
+            hints.push(lower);
             let item = armed.call(|| p.next());
             n += 1;
             match item {
@@ -97,6 +103,18 @@ pub fn run_parsers(x: &[u8], extra_polls: usize) -> ParserRun {
     });
     let stream_panic = sp.err();
     let reassembled = reassemble(&events);
+    // items actually produced from poll k on = number of polls k.. that returned an item
+    let mut hint_overpromise = 0usize;
+    let mut remaining = polls.iter().filter(|p| **p != Poll::None).count();
+    for (k, h) in hints.iter().enumerate() {
+        if *h > remaining && !budget_exhausted {
+            hint_overpromise = hint_overpromise.max(*h - remaining);
+        }
+        if polls.get(k).map(|p| *p != Poll::None).unwrap_or(false) {
+            remaining -= 1;
+        }
+    }
+    let hint_max_lower = hints.iter().copied().max().unwrap_or(0);
     ParserRun {
         x_len: x.len(),
         reference,
@@ -109,6 +127,8 @@ pub fn run_parsers(x: &[u8], extra_polls: usize) -> ParserRun {
         budget_exhausted,
         stream_alloc,
         reassembled,
+        hint_overpromise,
+        hint_max_lower,
     }
 }
 
